@@ -745,7 +745,12 @@ def _list_method(ex: Exec, l: SV, name: str, node: ast.Call) -> SV | None:
     if name == "append":
         v = ex.eval(node.args[0])
         ex.check_frame(oid, "seq", what)
-        ex.wr("seq", oid, z3.Concat(ex.seq(l), z3.Unit(v.t)))
+        s0 = ex.seq(l)
+        ex.wr("seq", oid, z3.Concat(s0, z3.Unit(v.t)))
+        if getattr(ex, "_elt_def", False):
+            # ground instance of elt's definition at the appended position (a trigger term
+            # for quantified clauses about the extended list)
+            ex.assume(S.ELT(z3.Concat(s0, z3.Unit(v.t)), z3.Length(s0)) == v.t)
         return sv_none()
     if name == "extend":
         s, ety, _ = _seq_of_iterable(ex, node.args[0])
